@@ -2,7 +2,7 @@
    AS THEY ARE WRITTEN in /repo's sizeof.go, encoder.go and decoder.go now: Src/SrcWire.v is regenerated from the Go
    source by harness/cmd/go2coq on every run, so these theorems are re-checked against what the code says.
    Statements only. *)
-From CsProto Require Import Prelude Varint ZigZag Codec WireStmts GoSem SrcWire SrcLink SrcEncProofs SrcDecProofs SrcCompose.
+From CsProto Require Import Prelude Varint ZigZag Codec WireStmts GoSem SrcWire SrcLink SrcEncProofs SrcDecProofs SrcCompose SrcEncoderLink SrcEncMethods SrcEncCompose.
 Local Open Scope Z_scope.
 
 (* sizeof.go's SizeOfVarint(v) is exactly the number of bytes encoder.go's EncodeVarint(dest, v) writes: enough room ->
@@ -61,6 +61,101 @@ Theorem C01_src_DecodeZigZag32_is_model : forall fuel p, (11 <= fuel)%nat -> byt
   go_DecodeZigZag32 fuel p = Val (lift_zz dec_zz32 (dec_varint (bytesN p))).
 Proof. exact src_DecodeZigZag32. Qed.
 Print Assumptions C01_src_DecodeZigZag32_is_model.
+
+(* ---- the Encoder methods AS WRITTEN in encoder.go (EncodeBool, EncodeUInt32/64, EncodeInt32/64, EncodeSInt32/64,
+   EncodeMapEntryHeader): on a buffer  pre ++ room ++ post  with the cursor after pre and exactly the predicted room, the method
+   returns normally with the buffer  pre ++ <the field's encoding> ++ post  (nothing outside the room touched) and the cursor
+   advanced by the prediction; [exact_outcome pre post r op] says exactly that of the translated call's result r.
+   Each is the composition of "translated method = model step" (also stated below) with C01_encode_exact. *)
+Theorem C01_src_EncodeBool_exact : forall fuel pre room post tag, (11 <= fuel)%nat -> buf_ok pre room post -> 1 <= tag <= 536870911 ->
+  forall b, List.length room = esize (EScalar KBool (Z.to_N tag) (conv_b b)) ->
+  exact_outcome pre post (go_Encoder_EncodeBool fuel (bytesZ (pre ++ room ++ post)) (Z.of_nat (List.length pre)) tag b)
+                (EScalar KBool (Z.to_N tag) (conv_b b)).
+Proof. exact src_exact_EncodeBool. Qed.
+Print Assumptions C01_src_EncodeBool_exact.
+Theorem C01_src_EncodeUInt32_exact : forall fuel pre room post tag, (11 <= fuel)%nat -> buf_ok pre room post -> 1 <= tag <= 536870911 ->
+  forall v, 0 <= v < 2^32 -> List.length room = esize (EScalar KUInt32 (Z.to_N tag) v) ->
+  exact_outcome pre post (go_Encoder_EncodeUInt32 fuel (bytesZ (pre ++ room ++ post)) (Z.of_nat (List.length pre)) tag v)
+                (EScalar KUInt32 (Z.to_N tag) v).
+Proof. exact src_exact_EncodeUInt32. Qed.
+Print Assumptions C01_src_EncodeUInt32_exact.
+Theorem C01_src_EncodeUInt64_exact : forall fuel pre room post tag, (11 <= fuel)%nat -> buf_ok pre room post -> 1 <= tag <= 536870911 ->
+  forall v, 0 <= v < 2^64 -> List.length room = esize (EScalar KUInt64 (Z.to_N tag) v) ->
+  exact_outcome pre post (go_Encoder_EncodeUInt64 fuel (bytesZ (pre ++ room ++ post)) (Z.of_nat (List.length pre)) tag v)
+                (EScalar KUInt64 (Z.to_N tag) v).
+Proof. exact src_exact_EncodeUInt64. Qed.
+Print Assumptions C01_src_EncodeUInt64_exact.
+Theorem C01_src_EncodeInt32_exact : forall fuel pre room post tag, (11 <= fuel)%nat -> buf_ok pre room post -> 1 <= tag <= 536870911 ->
+  forall v, - 2^31 <= v < 2^31 -> List.length room = esize (EScalar KInt32 (Z.to_N tag) v) ->
+  exact_outcome pre post (go_Encoder_EncodeInt32 fuel (bytesZ (pre ++ room ++ post)) (Z.of_nat (List.length pre)) tag v)
+                (EScalar KInt32 (Z.to_N tag) v).
+Proof. exact src_exact_EncodeInt32. Qed.
+Print Assumptions C01_src_EncodeInt32_exact.
+Theorem C01_src_EncodeInt64_exact : forall fuel pre room post tag, (11 <= fuel)%nat -> buf_ok pre room post -> 1 <= tag <= 536870911 ->
+  forall v, - 2^63 <= v < 2^63 -> List.length room = esize (EScalar KInt64 (Z.to_N tag) v) ->
+  exact_outcome pre post (go_Encoder_EncodeInt64 fuel (bytesZ (pre ++ room ++ post)) (Z.of_nat (List.length pre)) tag v)
+                (EScalar KInt64 (Z.to_N tag) v).
+Proof. exact src_exact_EncodeInt64. Qed.
+Print Assumptions C01_src_EncodeInt64_exact.
+Theorem C01_src_EncodeSInt32_exact : forall fuel pre room post tag, (11 <= fuel)%nat -> buf_ok pre room post -> 1 <= tag <= 536870911 ->
+  forall v, - 2^31 <= v < 2^31 -> List.length room = esize (EScalar KSInt32 (Z.to_N tag) v) ->
+  exact_outcome pre post (go_Encoder_EncodeSInt32 fuel (bytesZ (pre ++ room ++ post)) (Z.of_nat (List.length pre)) tag v)
+                (EScalar KSInt32 (Z.to_N tag) v).
+Proof. exact src_exact_EncodeSInt32. Qed.
+Print Assumptions C01_src_EncodeSInt32_exact.
+Theorem C01_src_EncodeSInt64_exact : forall fuel pre room post tag, (11 <= fuel)%nat -> buf_ok pre room post -> 1 <= tag <= 536870911 ->
+  forall v, - 2^63 <= v < 2^63 -> List.length room = esize (EScalar KSInt64 (Z.to_N tag) v) ->
+  exact_outcome pre post (go_Encoder_EncodeSInt64 fuel (bytesZ (pre ++ room ++ post)) (Z.of_nat (List.length pre)) tag v)
+                (EScalar KSInt64 (Z.to_N tag) v).
+Proof. exact src_exact_EncodeSInt64. Qed.
+Print Assumptions C01_src_EncodeSInt64_exact.
+Theorem C01_src_EncodeMapEntryHeader_exact : forall fuel pre room post tag, (11 <= fuel)%nat -> buf_ok pre room post -> 1 <= tag <= 536870911 ->
+  forall size, 0 <= size < 2^63 -> List.length room = esize (EMapHeader (Z.to_N tag) (Z.to_N size)) ->
+  exact_outcome pre post (go_Encoder_EncodeMapEntryHeader fuel (bytesZ (pre ++ room ++ post)) (Z.of_nat (List.length pre)) tag size)
+                (EMapHeader (Z.to_N tag) (Z.to_N size)).
+Proof. exact src_exact_EncodeMapEntryHeader. Qed.
+Print Assumptions C01_src_EncodeMapEntryHeader_exact.
+
+(* translated method = model step, on EVERY buffer and cursor (also too short ones: both panic) *)
+Theorem C01_src_EncodeBool_is_model : forall fuel e tag b, (11 <= fuel)%nat -> est_ok e -> 1 <= tag <= 536870911 ->
+  abs_enc (go_Encoder_EncodeBool fuel (est_p e) (est_off e) tag b) = Some (enc_scalar e KBool (Z.to_N tag) (conv_b b)).
+Proof. exact src_Encoder_EncodeBool. Qed.
+Print Assumptions C01_src_EncodeBool_is_model.
+Theorem C01_src_EncodeUInt32_is_model : forall fuel e tag v, (11 <= fuel)%nat -> est_ok e -> 1 <= tag <= 536870911 -> 0 <= v < 2^32 ->
+  abs_enc (go_Encoder_EncodeUInt32 fuel (est_p e) (est_off e) tag v) = Some (enc_scalar e KUInt32 (Z.to_N tag) v).
+Proof. exact src_Encoder_EncodeUInt32. Qed.
+Print Assumptions C01_src_EncodeUInt32_is_model.
+Theorem C01_src_EncodeUInt64_is_model : forall fuel e tag v, (11 <= fuel)%nat -> est_ok e -> 1 <= tag <= 536870911 -> 0 <= v < 2^64 ->
+  abs_enc (go_Encoder_EncodeUInt64 fuel (est_p e) (est_off e) tag v) = Some (enc_scalar e KUInt64 (Z.to_N tag) v).
+Proof. exact src_Encoder_EncodeUInt64. Qed.
+Print Assumptions C01_src_EncodeUInt64_is_model.
+Theorem C01_src_EncodeInt32_is_model : forall fuel e tag v, (11 <= fuel)%nat -> est_ok e -> 1 <= tag <= 536870911 -> - 2^31 <= v < 2^31 ->
+  abs_enc (go_Encoder_EncodeInt32 fuel (est_p e) (est_off e) tag v) = Some (enc_scalar e KInt32 (Z.to_N tag) v).
+Proof. exact src_Encoder_EncodeInt32. Qed.
+Print Assumptions C01_src_EncodeInt32_is_model.
+Theorem C01_src_EncodeInt64_is_model : forall fuel e tag v, (11 <= fuel)%nat -> est_ok e -> 1 <= tag <= 536870911 -> - 2^63 <= v < 2^63 ->
+  abs_enc (go_Encoder_EncodeInt64 fuel (est_p e) (est_off e) tag v) = Some (enc_scalar e KInt64 (Z.to_N tag) v).
+Proof. exact src_Encoder_EncodeInt64. Qed.
+Print Assumptions C01_src_EncodeInt64_is_model.
+Theorem C01_src_EncodeSInt32_is_model : forall fuel e tag v, (11 <= fuel)%nat -> est_ok e -> 1 <= tag <= 536870911 -> - 2^31 <= v < 2^31 ->
+  abs_enc (go_Encoder_EncodeSInt32 fuel (est_p e) (est_off e) tag v) = Some (enc_scalar e KSInt32 (Z.to_N tag) v).
+Proof. exact src_Encoder_EncodeSInt32. Qed.
+Print Assumptions C01_src_EncodeSInt32_is_model.
+Theorem C01_src_EncodeSInt64_is_model : forall fuel e tag v, (11 <= fuel)%nat -> est_ok e -> 1 <= tag <= 536870911 -> - 2^63 <= v < 2^63 ->
+  abs_enc (go_Encoder_EncodeSInt64 fuel (est_p e) (est_off e) tag v) = Some (enc_scalar e KSInt64 (Z.to_N tag) v).
+Proof. exact src_Encoder_EncodeSInt64. Qed.
+Print Assumptions C01_src_EncodeSInt64_is_model.
+Theorem C01_src_EncodeMapEntryHeader_is_model : forall fuel e tag size, (11 <= fuel)%nat -> est_ok e -> 1 <= tag <= 536870911 -> 0 <= size < 2^63 ->
+  abs_enc (go_Encoder_EncodeMapEntryHeader fuel (est_p e) (est_off e) tag size) = Some (enc_map_header e (Z.to_N tag) (Z.to_N size)).
+Proof. exact src_Encoder_EncodeMapEntryHeader. Qed.
+Print Assumptions C01_src_EncodeMapEntryHeader_is_model.
+
+Example C01_src_example_methods :
+  go_Encoder_EncodeSInt64 11 [9; 0; 0; 0; 7] 1 2 (-65) = Val (tt, [9; 16; 129; 1; 7], 4)
+  /\ go_Encoder_EncodeSInt64 11 [9; 0; 0; 7] 2 2 (-65) = GoPanic
+  /\ go_Encoder_EncodeBool 11 [0; 0] 0 1 true = Val (tt, [8; 1], 2)
+  /\ buf_ok [9%N] [0; 0; 0]%N [7%N].
+Proof. repeat split; try (vm_compute; reflexivity); try (cbn; lia). repeat constructor. Qed.
 
 (* premises are met by non-trivial instances, evaluated on the translated source *)
 Example C01_src_example_encode :
